@@ -1005,6 +1005,15 @@ class Tr:
             return b, "(b2z %s)" % paren(a), "i8b"        # an i8 known to be 0 or 1
         if name in ("core::hint::unreachable_unchecked", "hint::unreachable_unchecked", "unreachable_unchecked"):
             raise Unsupported("unreachable_unchecked as a value")
+        if name == "Self::from" and f.selfty == "uint" and len(args) == 1 and args[0][0] == "num" and not args[0][2]:
+            # `Self::from(2)`: an integer literal with no other constraint is an i32, so this is
+            # From<i32> for Uint (TryFrom<i32>, panicking): NOT translated; Model/Conv.v
+            if not (0 <= args[0][1] < 2 ** 31):
+                raise Unsupported("literal outside i32")
+            f.impure = True
+            v = f.fresh()
+            return ["do %s <- Conv.from_of (Conv.try_from_prim BITS {| Conv.pw := 32; Conv.psigned := true |} %d) ;"
+                    % (v, args[0][1])], v, "uint"
         if name in ("u128::from", "Self::from", "u64::from", "usize::from"):
             to = name.split("::")[0]
             if to == "Self":
@@ -2083,6 +2092,7 @@ WHILE_ROUNDS = {
     "g_alg_gcd": "Z.to_nat (2 * BITS + 2)",
     "g_alg_gcd_extended": "Z.to_nat (2 * BITS + 2)",
     "g_alg_inv_mod": "Z.to_nat (2 * BITS + 2)",
+    "g_inv_ring": "Z.to_nat LIMBS",               # correct_limbs doubles from 1 until it reaches LIMBS
 }
 
 TARGETS = [
@@ -2228,6 +2238,7 @@ TARGETS = [
     ("src/pow.rs", UINT_IMPL, "saturating_pow", "U.saturating_pow", "g_saturating_pow", "uint"),
     ("src/pow.rs", UINT_IMPL, "wrapping_pow", "U.wrapping_pow", "g_wrapping_pow", "uint"),
     ("src/pow.rs", UINT_IMPL, "pow", "U.pow", "g_pow", "uint"),
+    ("src/mul.rs", UINT_IMPL, "inv_ring", "U.inv_ring", "g_inv_ring", "uint"),
 ]
 
 
